@@ -122,7 +122,7 @@ func H_C02_roundtrip_opts() {
 	o.simpleAsMap = vNondetBool()
 	o.keepSpaces = vNondetBool()
 	o.escape = vNondetBool()
-	suffix := []string{"", "-c", "c"}[vChoose(3)]
+	suffix := []string{"", "-c", "c", "-c-d"}[vChoose(4)]
 	k1 := &vXElem{name: vNondetString(1, 1, "bB"), items: []vXItem{{kind: 1, text: " x"}}}
 	k2 := &vXElem{name: vNondetString(1, 1, "bB") + suffix}
 	root := &vXElem{name: "r" + suffix,
@@ -139,6 +139,11 @@ func H_C02_roundtrip_cast() {
 	t2 := texts[vChoose(len(texts))]
 	kid := &vXElem{name: "k", items: []vXItem{{kind: 1, text: t2}}}
 	root := &vXElem{name: "r", attrs: [][2]string{{"a", t1}}, items: []vXItem{{kind: 0, el: kid}, {kind: 0, el: &vXElem{name: "k", items: []vXItem{{kind: 1, text: t1}}}}}}
+	if vChoose(3) == 0 {
+		// mixed content in an element without attributes: castable text after its children
+		mixed := &vXElem{name: "m", items: []vXItem{{kind: 0, el: &vXElem{name: "c"}}, {kind: 1, text: t2}}}
+		root = &vXElem{name: "r", items: []vXItem{{kind: 0, el: kid}, {kind: 0, el: mixed}}}
+	}
 	CastValuesToInt(false)
 	CastValuesToFloat(vChoose(2) == 1)
 	CastValuesToBool(vChoose(2) == 1)
